@@ -2,8 +2,10 @@
 RelativeSequence.split."""
 from vmon import gen
 from vmon import oracle as orc
-from vmon.checks.common import obs, fail, random_prefix, apply_prefix
+from vmon.checks.common import obs, fail, both_views, random_prefix, apply_prefix
 
+EXTREMES = "seq"   # worker re-labels every sixth case to the ends of the legal ranges (gen.extremify)
+RESTATE = "seq"    # worker adds a signature restating the one in force to every fifth case (gen.restate_signatures)
 PROP = "C08"
 MONITORS = ["split"]
 INSITU = {"k": ""}
@@ -63,7 +65,9 @@ def make_case(rng, i, tier):
         spec["pad"] = pad
     prefix = [op for op in random_prefix(rng, n=(1, 2)) if op["op"] not in ("pad", "scale", "quantise", "quantise_same", "cutoff", "qnl")] \
         if (i % 5 == 4 and stratum == "B") else []
-    return {"seq": spec, "caps": caps, "stratum": stratum, "mode": mode, "prefix": prefix}
+    form = ["default", "copy_false", "default", "copy_true", "default", "copy_false_positional", "default", "rel_level", "copy_false",
+            "rel_level_tuple"][(i // 2) % 10]
+    return {"seq": spec, "caps": caps, "stratum": stratum, "mode": mode, "prefix": prefix, "form": form}
 
 
 def classify(f, case):
@@ -89,11 +93,28 @@ def run(case, ctx):
     s = gen.build_seq(case["seq"])
     s = apply_prefix(s, case.get("prefix", []))
     before = obs(s)
-    pieces = s.split(list(case["caps"]))
+    # call forms: default, explicit copy_messages=True / False (the pieces may then share Message objects with the source, but
+    # the call itself must still leave the source as it was), positional, and the representation-level method
+    form = case.get("form", "default")
+    LOG.n("c08.call_form." + form)
+    if form == "default":
+        pieces = s.split(list(case["caps"]))
+    elif form == "copy_true":
+        pieces = s.split(capacities=list(case["caps"]), copy_messages=True)
+    elif form == "copy_false":
+        pieces = s.split(list(case["caps"]), copy_messages=False)
+    elif form == "copy_false_positional":
+        pieces = s.split(list(case["caps"]), False)
+    else:
+        from scoda.sequences.sequence import Sequence
+        pieces = [Sequence(relative_sequence=p) for p in s.rel.split(tuple(case["caps"]) if form == "rel_level_tuple" else list(case["caps"]))]
     fails = []
     after = obs(s)
     if after["events"] != before["events"] or after["dur"] != before["dur"]:
         fails.append(fail("source_changed(sequence level)", None))
+    ea, da, er, dr = both_views(s)
+    if ea != er or da != dr or er != before["events"] or dr != before["dur"]:
+        fails.append(fail("source_views_after_split", {"abs_dur": da, "rel_dur": dr, "before": before["dur"]}))
     bounds = set()
     t = 0
     for c in case["caps"]:
